@@ -256,7 +256,7 @@ def _check_merge(cx, fn, alias, kind):
         if dest in LIST_FIELDS:
             cx.check("accumulates:%s:%s" % (kind, dest), mode == "append", site_of(fn, span=span), "list-valued option %s accumulates (append), found mode %s" % (dest, mode))
         elif dest in MAP_FIELDS:
-            cx.check("accumulates:%s:%s" % (kind, dest), mode == "insert", site_of(fn, span=span), "per-event hooks accumulate (insert), found mode %s" % mode)
+            cx.check("accumulates:%s:%s" % (kind, dest), mode in ("insert", "append"), site_of(fn, span=span), "per-event hooks accumulate (insert / extend), found mode %s" % mode)
         else:
             cx.check("overwrites:%s:%s" % (kind, dest), mode == "assign", site_of(fn, span=span), "option %s is assigned, found mode %s" % (dest, mode))
             if dest in REPLACE_LIST:
